@@ -67,6 +67,28 @@ func (r *Runner) obs(afterFail, light bool) {
 
 // obsBody performs the sweep on r.db and returns the event body; record ids
 // refer to the current r.recs table (the caller attaches it).
+func (r *Runner) assignAll() (out [][]interface{}, err error) {
+	out = [][]interface{}{}
+	add := func(o sod.Object) { out = append(out, []interface{}{r.slotOf(o.UUID()), r.recID(o)}) }
+	if r.cfg.Plain {
+		var t []*RecPlain
+		if err = r.db.AssignAll(r.proto(), &t); err == nil {
+			for _, o := range t {
+				add(o)
+			}
+		}
+	} else {
+		var t []*Rec
+		if err = r.db.AssignAll(r.proto(), &t); err == nil {
+			for _, o := range t {
+				add(o)
+			}
+		}
+	}
+	sort.Slice(out, func(i, j int) bool { return out[i][0].(int) < out[j][0].(int) })
+	return
+}
+
 func (r *Runner) obsBody(afterFail, light bool) ev {
 	e := ev{"ev": "obs", "after_fail": afterFail, "async": r.cfg.Async}
 	proto := r.proto()
@@ -80,6 +102,15 @@ func (r *Runner) obsBody(afterFail, light bool) ev {
 	}
 	sort.Slice(all, func(i, j int) bool { return all[i][0].(int) < all[j][0].(int) })
 	e["all"] = all
+
+	// AssignAll: the same listing through the typed-slice path
+	all2, err := r.assignAll()
+	e["all2_c"] = classify(err)
+	e["all2"] = all2
+
+	if r.t.Aux {
+		e["x"] = r.xlist()
+	}
 
 	// Count
 	n, err := r.db.Count(proto)
